@@ -26,7 +26,8 @@ impl Domain {
     pub fn new() -> Domain {
         let n = COUNTER.fetch_add(1, Ordering::Relaxed);
         let prefix = format!("v{}x{}_", std::process::id(), n);
-        Self::with(&prefix, &format!("d{n}"))
+        // the root is unique per process as well: forked case processes inherit the counter
+        Self::with(&prefix, &format!("d{}_{n}", std::process::id()))
     }
 
     /// Domain with an explicit prefix and root directory name (for the isolation checks).
